@@ -57,6 +57,12 @@ def const_generic_subst(callee, fn_args):
         return {}
     out = {}
     for g, tok in zip(use, toks):
+        if g.get("kind") == "type":
+            # a type parameter of the helper: the concrete argument is written into the generic-argument text of the
+            # calls that are folded in (`Layout::array::<T>` inside `append_array::<u16>` is `Layout::array::<u16>`)
+            if tok.split("/#")[0].strip() != g["name"]:
+                out[g["name"]] = ("type", tok)
+            continue
         if g.get("kind") != "const":
             continue
         if tok in ("true", "false"):
@@ -77,7 +83,7 @@ def _remap(o, loff, boff, poff, callee_path, unwind_to):
     if not isinstance(o, dict):
         return o
     sub = _SUBST[0]
-    if sub and "param" in o and o.get("param") in sub and "ty" in o:
+    if sub and "param" in o and o.get("param") in sub and "ty" in o and not (isinstance(sub[o["param"]], tuple) and sub[o["param"]][0] == "type"):
         v = sub[o["param"]]
         if isinstance(v, tuple):
             return dict(o, param=v[1], text=v[1])
@@ -86,8 +92,11 @@ def _remap(o, loff, boff, poff, callee_path, unwind_to):
         txt = o["fn_args"]
         import re as _re
         for nm, v in sub.items():
-            rep = (v[1] + "/#0") if isinstance(v, tuple) else str(v).lower()
-            txt = _re.sub(r"\b%s/#\d+" % _re.escape(nm), rep, txt)
+            if isinstance(v, tuple) and v[0] == "type":
+                rep = v[1]
+            else:
+                rep = (v[1] + "/#0") if isinstance(v, tuple) else str(v).lower()
+            txt = _re.sub(r"\b%s/#\d+" % _re.escape(nm), lambda m_, rep=rep: rep, txt)
         o = dict(o, fn_args=txt)
     if "l" in o and "p" in o and len(o) == 2:  # place
         np = []
@@ -268,7 +277,7 @@ def expand_option_map(body, by_path):
         l_pay = len(L); L.append({"ty": cb["locals"][2]["ty"], "mut": False})
         l_tup = len(L); L.append({"ty": "(%s,)" % cb["locals"][2]["ty"], "mut": False})
         l_res = len(L); L.append({"ty": cb["locals"][0]["ty"], "mut": False})
-        b_none, b_some, b_wrap = len(blocks), len(blocks) + 1, len(blocks) + 2
+        b_none, b_some, b_wrap, b_unr = len(blocks), len(blocks) + 1, len(blocks) + 2, len(blocks) + 3
         dest, target, unwind = t["dest"], t["target"], t.get("unwind", "continue")
         mk = lambda stmts, term: {"stmts": stmts, "term": term, "cleanup": blocks[bi].get("cleanup", False), "synth": "Option::map"}
         asg = lambda lhs, rv: {"k": "assign", "line": line, "exp": False, "lhs": lhs, "rv": rv}
@@ -281,9 +290,10 @@ def expand_option_map(body, by_path):
                           "dest": {"l": l_res, "p": []}, "target": b_wrap, "unwind": unwind, "fn_line": line}))
         blocks.append(mk([asg(copy.deepcopy(dest), {"agg": "adt", "adt": "std::option::Option", "variant": "Some", "vidx": 1, "fields": ["0"], "ops": [{"move": {"l": l_res, "p": []}}]})],
                          {"k": "goto", "line": line, "col": 0, "exp": False, "target": target}))
+        blocks.append(mk([], {"k": "unreachable", "line": line, "col": 0, "exp": False}))
         blocks[bi]["stmts"].append(asg({"l": l_discr, "p": []}, {"discr": {"l": op_["l"], "p": []}, "of": opt_ty}))
         blocks[bi]["term"] = {"k": "switch", "line": line, "col": t.get("col", 0), "exp": False, "discr": {"move": {"l": l_discr, "p": []}}, "ty": "isize",
-                              "arms": [[0, b_none], [1, b_some]], "otherwise": b_some, "synth": "Option::map"}
+                              "arms": [[0, b_none], [1, b_some]], "otherwise": b_unr, "synth": "Option::map"}
         _NEW_DIRECT.add(cl)
         _MAP_EXPANDED.add(cl)
         n += 1
